@@ -457,8 +457,25 @@ func main() {
 		os.Exit(1)
 	}
 	if len(inconcl) > 0 {
+		seen := map[string]int{}
+		var order []string
 		for _, s := range inconcl {
-			fmt.Printf("INCONCLUSIVE property=%s %s\n", prop, clip(s, 800))
+			k := clip(s, 400)
+			if seen[k] == 0 {
+				order = append(order, k)
+			}
+			seen[k]++
+		}
+		for i, k := range order {
+			if i >= 40 {
+				fmt.Printf("INCONCLUSIVE property=%s ... %d more distinct reasons\n", prop, len(order)-i)
+				break
+			}
+			if seen[k] > 1 {
+				fmt.Printf("INCONCLUSIVE property=%s %s (x%d)\n", prop, k, seen[k])
+			} else {
+				fmt.Printf("INCONCLUSIVE property=%s %s\n", prop, k)
+			}
 		}
 		os.Exit(2)
 	}
